@@ -140,15 +140,53 @@ class SoupLines(Stream):
 
 
 from c02 import ScanForStart  # noqa: E402  (line counter of the off-region scanner)
+from c11 import FetchDirect  # noqa: E402
+
+
+class ChoiceErrorLines(FetchDirect):
+    """The 'Not a possible choice' report of choice_converters.fetch on value words that sit on different lines
+    (a value continued over lines): the cited line is the line of the offending token, compared with the model
+    (Model/Choice.v carries the line of the offending word) and with the words of the case."""
+    name = "choice_error_lines"
+
+    def cases(self, rng, tier):
+        n = 4000 if tier == "quick" else 40000
+        alts = ["a", "b", "cc", "x y"]
+        for _ in range(n):
+            mw = [[v, "n", 1] for v in alts[:rng.randint(1, 4)]]
+            k = rng.randint(1, 5)
+            line, sw = rng.randint(1, 3), []
+            for _ in range(k):
+                v = rng.choice(["a", "b", "*a", "*b", "cc", "zz", "*zz", "q", "a+b", "a+zz", "zz+q", "+", "A", "*CC"])
+                sw.append([v, rng.choice("nnnn12"), line])
+                line += rng.choice([0, 0, 1, 2])            # a continuation backslash moves the following words down
+            yield [mw, sw, rng.random() < 0.5, rng.choice(["None", "True", "False"]), False]
+
+    def prop(self, case, o):
+        F = o[0] if isinstance(o, list) and o else None
+        if not (isinstance(F, list) and F[:3] == ["err", "Sorry", "NotAChoice"] and len(F) >= 6):
+            return None
+        token, cited = F[3], F[5]
+        lines = set(str(l) for v, q, l in case[1] if token in v)
+        if cited not in lines:
+            return "the error names token %r, which occurs on line(s) %s of the value, but cites line %s" % (
+                token, sorted(lines), cited)
+        return None
+
+    def tag(self, case, o):
+        F = o[0] if isinstance(o, list) and o else None
+        return "notachoice" if isinstance(F, list) and F[:3] == ["err", "Sorry", "NotAChoice"] else "other"
+
 
 SPEC = {
-    "clusters": ["Parse", "Tok"],
-    "streams": [Lines, SoupLines, ScanForStart],
+    "clusters": ["Parse", "Tok", "Choice"],
+    "streams": [Lines, SoupLines, ScanForStart, ChoiceErrorLines],
     "rule": "renderings of random abstract trees by the layout sampler, which records the line of every emitted name and word "
             "(multi-line quoted words, continuations, ';', comments, off regions), plus malformed variants with a known faulty token and line; "
             "plus token soup / mutated documents where implementation and model must report identical lines; distinct = distinct text",
     "trusted": ["Modelled: tokenizer.py, parser.py as in C02; observation = (name, where_str line) of every object, (value, line) of every word, "
-                "(error kind, line).  Unused-definition report lines are covered by C06's stream, value-error lines by C10's."],
+                "(error kind, line).  Unused-definition report lines are covered by C06's stream, value-error lines by C10's; the "
+                "'Not a possible choice' report of a value spread over several lines by stream choice_error_lines (Model/Choice.v)."],
     "modelled": "parser-level line propagation checked by correspondence; theorems are token-level (C15.v)",
     "assumptions": ["text restricted to code points < 256", "source_info label not varied (None)"],
 }
